@@ -86,20 +86,58 @@ func c11Run(c *Ctx, cs c11Case) {
 	packSize := 512
 	nontrivial := false
 	for ri, rp := range cs.Resps {
+		// Hooks are registered one by one or, every other time there are
+		// several, in one call that is preceded by a REFUSED call: the same
+		// hooks with a nil among them (a slip the API answers with an
+		// error). The refused call must not have registered anything.
+		var eedFns []tds.EEDHook
 		for i := 0; i < rp.AddEEDHooks; i++ {
 			h := nEED
 			nEED++
-			if err := k.ch.RegisterEEDHooks(func(e tds.EEDPackage) { emit(fmt.Sprintf("hook:%d:%d", h, e.MsgNumber)) }); err != nil {
-				r.Violate("register-hook-failed", err.Error(), cs)
-				return
-			}
+			eedFns = append(eedFns, func(e tds.EEDPackage) { emit(fmt.Sprintf("hook:%d:%d", h, e.MsgNumber)) })
 		}
+		var envFns []tds.EnvChangeHook
 		for i := 0; i < rp.AddEnvHooks; i++ {
 			h := nEnv
 			nEnv++
-			if err := k.ch.RegisterEnvChangeHooks(func(t tds.EnvChangeType, o, n string) { emit(fmt.Sprintf("env:%d:%d:%s:%s", h, int(t), o, n)) }); err != nil {
+			envFns = append(envFns, func(t tds.EnvChangeType, o, n string) { emit(fmt.Sprintf("env:%d:%d:%s:%s", h, int(t), o, n)) })
+		}
+		if len(eedFns) >= 2 && (ri+len(eedFns))%2 == 1 {
+			bad := append(append(append([]tds.EEDHook(nil), eedFns[:len(eedFns)-1]...), nil), eedFns[len(eedFns)-1])
+			if err := k.ch.RegisterEEDHooks(bad...); err == nil {
+				r.Violate("register-hook/nil-accepted", "RegisterEEDHooks with a nil hook among the arguments returned nil", cs)
+				return
+			}
+			r.Count("refused_registrations_then_retry", 1)
+			if err := k.ch.RegisterEEDHooks(eedFns...); err != nil {
 				r.Violate("register-hook-failed", err.Error(), cs)
 				return
+			}
+		} else {
+			for _, f := range eedFns {
+				if err := k.ch.RegisterEEDHooks(f); err != nil {
+					r.Violate("register-hook-failed", err.Error(), cs)
+					return
+				}
+			}
+		}
+		if len(envFns) >= 2 && (ri+len(envFns))%2 == 1 {
+			bad := append(append(append([]tds.EnvChangeHook(nil), envFns[:len(envFns)-1]...), nil), envFns[len(envFns)-1])
+			if err := k.ch.RegisterEnvChangeHooks(bad...); err == nil {
+				r.Violate("register-hook/nil-accepted", "RegisterEnvChangeHooks with a nil hook among the arguments returned nil", cs)
+				return
+			}
+			r.Count("refused_registrations_then_retry", 1)
+			if err := k.ch.RegisterEnvChangeHooks(envFns...); err != nil {
+				r.Violate("register-hook-failed", err.Error(), cs)
+				return
+			}
+		} else {
+			for _, f := range envFns {
+				if err := k.ch.RegisterEnvChangeHooks(f); err != nil {
+					r.Violate("register-hook-failed", err.Error(), cs)
+					return
+				}
 			}
 		}
 		mu.Lock()
